@@ -21,7 +21,7 @@ THOROUGH = {
     "random": 800,
     "gen": dict(length=50, weights={"deliver": 22, "poll": 10, "store": 12, "fetchbody": 6, "expunge": 8, "move": 5,
                                     "copy": 5, "append": 6, "idle": 5, "done": 5, "noop": 10, "restart": 2}),
-    "tlc_timeout": 3000,
+    "tlc_timeout": 1500,
    }
 
 def _win(seed):
